@@ -8,6 +8,7 @@ import CCVerif.Lemmas.EvalExamples7n
 import CCVerif.Lemmas.EvalNestedExamples
 import CCVerif.Lemmas.EvalBlocksPatExamples
 import CCVerif.Lemmas.EvalBlocksPatFilterExamples
+import CCVerif.Lemmas.EvalCallsPatExamples
 /-!
 # C01 — evaluation returns the set-theoretic value
 
@@ -1102,5 +1103,67 @@ example : (evaluate 30 Examples.env0 Examples11.i11).1 = .ok (.s [.t [.e 1, .e 1
 example : List.Forall₂ OLe [none, some ([] : List Val)] [some [.e 1], some []] ∧
     filterTVal [1, 2] [.t [.e 1, .e 2]] [none, some []] = some (.val (.s [])) :=
   ⟨.cons (fun _ h => by cases h) (.cons (fun _ h => h) .nil), by decide⟩
+
+/-! ## stage 12: calls composed with tuple patterns / `R{}` / `I{}` / enumerated declarations / filters
+
+Stage 7 (`Beta`: calls unfolded, binders `∀ ∃ D{}` over ONE plain variable only) and stage 11 (`PE2`: patterns eliminated,
+no calls) are composed.  `Beta2` (`Lemmas/EvalCallsPat.lean`) = the rules of `Beta` with the binder rules over an ARBITRARY
+declaration (plain variable or tuple pattern of any depth; every leaf renamed to a name new on the reduct side, `PRens`)
+and congruence through `R{p:=…|…}`, `R{p:=…|…|…}`, enumerated declarations, the blocks of `I{}` (`p:∈dom`, `p:=e`,
+conditions) and both filter forms; the `call` rule reduces the body of the definition by `Beta2`, so these forms may also
+stand INSIDE a called definition, and a call may stand anywhere under them.  `Beta2.sound`: a value of the reduct at fuel
+`f` is the value of the expression at every fuel `≥ f + K` (the new cases: monotonicity of `⟦·⟧` in the definedness of the
+sub-terms; binding through a pattern and through its renamed copy gives related environments, `PRens.sound`).
+`Stage12`: `e` β-reduces to the call-free `e1`, `e1` goes by `PE2` to `es` over plain variables, `es` lies in the typed
+fragment of stage 8 with normal form `n`, and `n` is what the normaliser returns for `e`.  The refinement is in the form
+with the larger reference fuel (`eval_refines_denote_calls_statement`, see `call_fuel_counterexample`).
+NOT proved: that the normaliser always returns such an `n` (per-expression hypothesis, as in stages 7 and 9-11). -/
+
+/-- stage 12: calls unfolded (`Beta2`), then patterns eliminated (`PE2`), then the typed fragment of stage 8 -/
+def Stage12 (env : Env) (e : Ast) : Prop :=
+  ∃ G τ e1 es n K f0, GlobalsOK env G ∧ FragF env G 6 [] [] es n τ ∧ Beta2 env.funcs K [] e e1 ∧
+    PE2 (senvOf env) [] [] e1 es ∧ normalizeTree env.funcs f0 e = some n
+
+/-- **eval_refines_denote_partial12**: the refinement for closed expressions in which calls of term functions / predicates
+occur together with tuple patterns, `R{}`, `I{}`, enumerated declarations and filters (in the caller and in the bodies of
+the called definitions): a value returned by `Interpreter::Evaluate` is the value the reference semantics assigns to the
+ORIGINAL tree (calls by thunks, patterns bound by `bindPat`) at every fuel `≥ fuel + K`, `K` the offset of the β-reduction. -/
+theorem eval_refines_denote_partial12 : eval_refines_denote_calls_statement Stage12 := by
+  intro env e ⟨G, τ, e1, es, n, K, f0, hG, hf, hbeta, hu, hn⟩
+  refine ⟨K, fun fuel f' hf' => ?_⟩
+  rcases evaluate_callsPat hG hf hbeta hu hn fuel with hg | ho | ⟨eid, pos, he, _⟩
+  · cases τ with
+    | ty ty =>
+      obtain ⟨v, hr, _, _, hd⟩ := hg
+      constructor
+      · intro v' hv; rw [hr] at hv; injection hv with hv; rw [← hv]; exact hd f' hf'
+      · intro b hb; rw [hr] at hb; cases hb
+    | logic =>
+      obtain ⟨b, hr, hd⟩ := hg
+      constructor
+      · intro v hv; rw [hr] at hv; cases hv
+      · intro b' hb; rw [hr] at hb; injection hb with hb; rw [← hb]; exact hd f' hf'
+  · constructor <;> intro x hx <;> rw [ho] at hx <;> cases hx
+  · constructor <;> intro x hx <;> rw [he] at hx <;> cases hx
+
+/-- **beta_pattern_sound_partial12**: the two reductions composed, on the reference side alone: a value of the
+call-free, pattern-free `es` at fuel `f` is the value of `e` at every fuel `≥ f + K` -/
+theorem beta_pattern_sound_partial12 (S : SEnv) (K : Nat) (e e1 es : Ast) (hb : Beta2 S.funcs K [] e e1)
+    (hu : PE2 S [] [] e1 es) (f : Nat) (v : SemVal) (hv : denote S f .nil es = some v) (f' : Nat) (hf' : f + K ≤ f') :
+    denote S f' .nil e = some v :=
+  hb.sound .nil .nil (ERel.nil _ _ _) f v (hu.sound .nil .nil (URel.nil _ _) (EnvTy.nil _) f v hv f (by omega)) f' hf'
+
+/-- `Beta` (stage 7) is part of `Beta2` -/
+theorem beta_sub_beta2 (fs : Funcs) (K : Nat) (e es : Ast) (h : Beta fs K [] e es) : Beta2 fs K [] e es := h.toBeta2
+
+/-! non-vacuity of stage 12 (`Lemmas/EvalCallsPatExamples.lean`), `X1 = {1,2}`, `F1 :== [s∈ℬ(X1)] D{y∈X1 | y∈s}`: caller
+`∀(a,b)∈X1×X1 F1[{a}]={a}`; β-reduct `∀(a,b)∈X1×X1 D{__var1∈X1 | __var1∈{a}}={a}` (offset 2); pattern-free form and normal
+form `∀@ab∈X1×X1 D{__var1∈X1 | __var1∈{pr1(@ab)}}={pr1(@ab)}` -/
+example : Stage12 Examples7.env7 Examples12.c12 :=
+  ⟨_, _, _, _, _, 2, 10, Examples7.globalsOK_7, Examples12.c12n_frag.toF (Nat.le_refl _), Examples12.c12_beta,
+    Examples12.c12_pe, Examples12.c12_normalizes⟩
+example : normalizeTree Examples7.env7.funcs 10 Examples12.c12 = some Examples12.c12n := by rfl
+example : (evaluate 20 Examples7.env7 Examples12.c12).1 = .okBool true ∧
+    denote (senvOf Examples7.env7) 22 .nil Examples12.c12 = some (.bool true) := Examples12.c12_value
 
 end CCVerif.Eval
